@@ -116,6 +116,7 @@ impl Ctx {
 
     pub fn violation(&self, kind: &str, input: impl Into<String>, detail: Value) {
         self.violation_total.fetch_add(1, Ordering::SeqCst);
+        self.add(&format!("violations.{}", kind), 1);
         let mut v = self.violations.lock().unwrap();
         let same = v.iter().filter(|x| x.kind == kind).count();
         if same < MAX_STORED_PER_KIND {
